@@ -106,8 +106,14 @@ class StreamServer:
                     client, addr = lst.accept()
                 except BlockingIOError:
                     break
-                except OSError:
-                    return
+                except OSError as e:
+                    # gevent's BaseServer: EBADF / EINVAL / ENOTSOCK are fatal (the server closes), anything else is reported to the
+                    # hub and accepting goes on after a short delay
+                    import errno as _errno
+                    if e.errno in (_errno.EBADF, _errno.EINVAL, _errno.ENOTSOCK):
+                        return
+                    s.block(lambda: False, 0.01, False, False)
+                    break
                 n += 1
                 self.pool.spawn(self._handle, client, addr)
 
